@@ -27,7 +27,7 @@ for _v in ('OMP_NUM_THREADS', 'OPENBLAS_NUM_THREADS', 'MKL_NUM_THREADS'):
     os.environ.setdefault(_v, '2')   # small matrices only: BLAS threading is pure overhead here
 import numpy as np  # noqa: E402
 
-from common import Stream, budget, rng_for, show
+from common import Stream, budget, rng_for, show, InfraError
 
 TOL = 1e-9
 
@@ -434,6 +434,15 @@ def check_cases(ctx, stream, cases):
         else:
             reqs.append({'op': 'c11.gauss', 'W': zjson(c['M']), 'p': c['ncols']})
     models = model_runs(ctx, reqs)
+    # executable hypotheses of the Lean reconstruction theorems, evaluated on each input by the driver
+    hyp_idx = [k for k, c in enumerate(cases) if c['fn'] == 'square' or (c['fn'] == 'givens' and len(c['M']) < c['ncols'])]
+    hyp_ans = ctx.driver.run([{'op': 'c11.hypotheses', 'Q': zjson(cases[k]['M']), 'n': cases[k]['ncols'], 'ai': cases[k]['ai']}
+                              for k in hyp_idx])
+    for k, a in zip(hyp_idx, hyp_ans):
+        stream.count('theorem-hypotheses:' + ('verified' if a['probe'] and a['orthonormal'] else
+                                              'not-orthonormal-input' if not a['orthonormal'] else 'outside-exact-regime'))
+        if not a['orthonormal']:
+            raise InfraError('generator error: input rows are not exactly orthonormal (%s)' % cases[k]['kind'])
     spec_batch = []
     for c, (mo, decided) in zip(cases, models):
         Mnp = znp(c['M'], c['ncols'])
